@@ -14,6 +14,9 @@ VERIF = os.path.dirname(os.path.dirname(os.path.abspath(__file__)))
 args = sys.argv[1:]
 tests = "--tests" in args
 keep = "--keep" in args
+demo = None
+if "--demo" in args:
+    i = args.index("--demo"); demo = os.path.abspath(args[i + 1]); del args[i:i + 2]
 runs = None
 if "--runs" in args:
     i = args.index("--runs"); runs = args[i + 1]; del args[i:i + 2]
@@ -39,6 +42,15 @@ try:
         p = subprocess.run(["cargo", "test", "--offline", "--quiet"], cwd=wt, env=dict(env, CARGO_TARGET_DIR=os.path.join(bdir, "ttarget")), stdout=subprocess.PIPE, stderr=subprocess.STDOUT, text=True)
         res = [l for l in p.stdout.splitlines() if l.startswith("test result")]
         print("[existing tests] rc=%d %s (%.0fs)" % (p.returncode, res[:1], time.time() - t0))
+    if demo:
+        # the demonstration must pass on the unmodified build and fail on the modified one
+        subprocess.check_call([sys.executable, os.path.join(VERIF, "check"), "setup"], cwd=VERIF, stdout=subprocess.DEVNULL)
+        subprocess.check_call([sys.executable, os.path.join(VERIF, "check"), "setup"], cwd=VERIF, env=env, stdout=subprocess.DEVNULL)
+        orig = os.path.join(VERIF, ".build", "target", "release", "p2sh")
+        mut = os.path.join(bdir, "target", "release", "p2sh")
+        for label, b in (("unmodified", orig), ("modified", mut)):
+            p = subprocess.run(["bash", os.path.join(demo, "demo.sh"), b], cwd=demo, stdout=subprocess.PIPE, stderr=subprocess.STDOUT, text=True, timeout=300)
+            print("[demo on %s build] exit=%d" % (label, p.returncode))
     for pid in props:
         cmd = [os.path.join(VERIF, "check"), pid, "--no-evidence"] + (["--runs", runs] if runs else [])
         t0 = time.time()
